@@ -273,26 +273,9 @@ func (v *Value) GetMember(member Value) (*Cell, error) {
 		}
 
 		if index >= len(arr) {
-			// TODO sparse arrays
-			// don't fill up to enormous numbers, just bail
-			if index > 1024*1024 {
-				return nil, fmt.Errorf("index too large to auto-fill array")
-			}
-
-			// fill the array with empty cells up to the index
-			var lastCell *Cell
-			for i := len(arr); i <= index; i++ {
-				lastCell = NewCell(NewValue(nil))
-				arr = append(arr, lastCell)
-			}
-			v.Array = arr
-
-			// make the last cell a spec object
-			lastCell.Value.ParentObj = v
-			fIndex := float64(index)
-			lastCell.Value.Num = &fIndex
-
-			return lastCell, nil
+			// nothing there. reading must not change the array; SetMember
+			// extends it when the element is assigned to
+			return nil, nil
 		}
 		return arr[index], nil
 	case ValueObj:
@@ -335,6 +318,21 @@ func (v *Value) SetMember(member Value, cell *Cell) (*Cell, error) {
 		item, err := v.GetMember(member)
 		if err != nil {
 			return nil, err
+		}
+		if item == nil {
+			// past the end: fill the array with empty cells up to the index
+			index := int(*member.Num)
+
+			// TODO sparse arrays
+			// don't fill up to enormous numbers, just bail
+			if index > 1024*1024 {
+				return nil, fmt.Errorf("index too large to auto-fill array")
+			}
+
+			for i := len(v.Array); i <= index; i++ {
+				item = NewCell(NewValue(nil))
+				v.Array = append(v.Array, item)
+			}
 		}
 		item.Value = cell.Value
 		return item, nil
